@@ -13,33 +13,27 @@ Open Scope N_scope.
 Section OnDevice.
   Variables (fcos fsin fasin : binary64 -> binary64) (fatan2 : binary64 -> binary64 -> binary64).
 
-  (** the raw iteration of Model/QueueReader.v is the first component of the one with the final iterator *)
-  Theorem raw_read_all_is_fst : forall pc fuel log_size (s : pr),
-    rrun (raw_read_all fuel log_size pc) s =
-    let '(s', r) := rrun (raw_read_all_st fuel log_size pc) s in (s', res_map fst r).
-  Proof. intros. rewrite !rrun_is_grun. apply raw_read_all_fst. Qed.
-
-  Theorem simple_is_view_rrun : forall pc o log_size fuel (s s' : pr) raws itf rgs,
-    rrun (raw_read_all_st fuel log_size pc) s = (s', Ok (raws, itf)) ->
+  Theorem simple_is_view_rrun : forall pc o log_size fuel (s s' : pr) raws rgs,
+    rrun (raw_read_all fuel log_size pc) s = (s', Ok raws) ->
     prepare_ranges pc = Ok rgs ->
     index_records_are_integers pc = true ->
-    Forall (fun raw => invalid_states_in_set pc raw = true) (raws ++ leftover itf) ->
+    Forall (fun raw => invalid_states_in_set pc raw = true) raws ->
     exists pts, rrun (simple_read_all fcos fsin fasin fatan2 fuel log_size pc o) s = (s', Ok pts) /\
                 res_all (view fcos fsin fasin fatan2 pc o) raws = Ok pts.
   Proof.
-    intros pc o log_size fuel s s' raws itf rgs H. rewrite rrun_is_grun in H.
+    intros pc o log_size fuel s s' raws rgs H. rewrite rrun_is_grun in H.
     intros Hrg Hint HI. rewrite rrun_is_grun. eapply simple_is_view; eassumption.
   Qed.
 
-  Theorem simple_is_view_rrun_spec : forall pc o log_size fuel log (off off' : N) raws itf rgs,
-    rrun_spec log (raw_read_all_st fuel log_size pc) off = (off', Ok (raws, itf)) ->
+  Theorem simple_is_view_rrun_spec : forall pc o log_size fuel log (off off' : N) raws rgs,
+    rrun_spec log (raw_read_all fuel log_size pc) off = (off', Ok raws) ->
     prepare_ranges pc = Ok rgs ->
     index_records_are_integers pc = true ->
-    Forall (fun raw => invalid_states_in_set pc raw = true) (raws ++ leftover itf) ->
+    Forall (fun raw => invalid_states_in_set pc raw = true) raws ->
     exists pts, rrun_spec log (simple_read_all fcos fsin fasin fatan2 fuel log_size pc o) off = (off', Ok pts) /\
                 res_all (view fcos fsin fasin fatan2 pc o) raws = Ok pts.
   Proof.
-    intros pc o log_size fuel log off off' raws itf rgs H. rewrite rrun_spec_is_grun in H.
+    intros pc o log_size fuel log off off' raws rgs H. rewrite rrun_spec_is_grun in H.
     intros Hrg Hint HI. rewrite rrun_spec_is_grun. eapply simple_is_view; eassumption.
   Qed.
 
@@ -48,15 +42,15 @@ Section OnDevice.
     (forall raws, snd (rrun (raw_read_all fuel log_size pc) s) <> Ok raws)
     \/ (forall rgs, prepare_ranges pc <> Ok rgs)
     \/ index_records_are_integers pc = false
-    \/ exists s'' raws itf, rrun (raw_read_all_st fuel log_size pc) s = (s'', Ok (raws, itf)) /\
-         Exists (fun raw => invalid_states_in_set pc raw = false) (raws ++ leftover itf).
+    \/ exists s'' raws, rrun (raw_read_all fuel log_size pc) s = (s'', Ok raws) /\
+         Exists (fun raw => invalid_states_in_set pc raw = false) raws.
   Proof.
     intros pc o log_size fuel s s' e H. rewrite rrun_is_grun in H.
     destruct (simple_fails_only_if fcos fsin fasin fatan2 pr_step pc o log_size fuel s s' e H) as [H1|[H1|[H1|H1]]].
     - left. intros raws. rewrite rrun_is_grun. apply H1.
     - right. left. exact H1.
     - right. right. left. exact H1.
-    - right. right. right. destruct H1 as (s'' & raws & itf & Hr & He). exists s'', raws, itf.
+    - right. right. right. destruct H1 as (s'' & raws & Hr & He). exists s'', raws.
       rewrite rrun_is_grun. split; assumption.
   Qed.
 
@@ -170,28 +164,20 @@ End C05Instance.
 
 Import C05Instance.
 
-(** The hypotheses of [simple_is_view] hold for [records = 1]: the raw iteration
-    succeeds with point 1, the limits are usable, the index records are
-    integers, point 1 is in set, and nothing complete is left in the queues
-    (only the first packet is read; it carries the invalid states of all three
-    points but the coordinates of the first only). *)
+(** The hypotheses of [simple_is_view] hold for [records = 2]: the raw iteration
+    succeeds with points 1 and 2, the limits are usable, the index records are
+    integers, both points are in set.  (Point 3, decoded from the same packet
+    as point 2, has invalid state 3: it lies behind the last point.) *)
 Example C05_instance_hypotheses :
-  raw_run 1 = Ok (firstn 1 pts) /\
-  is_ok (prepare_ranges (pc 1)) = true /\ index_records_are_integers (pc 1) = true /\
-  forallb (invalid_states_in_set (pc 1)) (firstn 1 pts) = true /\
-  match snd (rrun_spec log (raw_read_all_st 10 (len log) (pc 1)) 0) with
-  | Ok (raws, itf) => (length raws =? 1)%nat && (length (leftover itf) =? 0)%nat
-  | _ => false
-  end = true.
-Proof.
-  split; [vm_compute; reflexivity|]. split; [vm_compute; reflexivity|]. split; [vm_compute; reflexivity|].
-  split; vm_compute; reflexivity.
-Qed.
+  raw_run 2 = Ok (firstn 2 pts) /\
+  is_ok (prepare_ranges (pc 2)) = true /\ index_records_are_integers (pc 2) = true /\
+  forallb (invalid_states_in_set (pc 2)) (firstn 2 pts) = true.
+Proof. repeat split; vm_compute; reflexivity. Qed.
 
 (** ... and for all 64 option vectors the simple iterator returns the views of the raw points *)
 Example C05_instance_all_options :
-  forallb (fun o => match res_bits (simple_run 1 o), res_bits (views 1 o) with
-                    | Ok a, Ok b => if list_eq_dec (list_eq_dec N.eq_dec) a b then (length a =? 1)%nat else false
+  forallb (fun o => match res_bits (simple_run 2 o), res_bits (views 2 o) with
+                    | Ok a, Ok b => if list_eq_dec (list_eq_dec N.eq_dec) a b then (length a =? 2)%nat else false
                     | _, _ => false
                     end) all_opts = true /\ length all_opts = 64%nat.
 Proof. split; vm_compute; reflexivity. Qed.
@@ -204,18 +190,13 @@ Example C05_instance_value :
        0x3f800000; 0x3f800000; 0x3f800000; 0x3f800000]].
 Proof. vm_compute. reflexivity. Qed.
 
-(** Without the hypothesis on what is left in the queues the statement is false:
-    with two records the raw iterator returns two points, both with invalid-state
-    values in the documented set, the limits are usable and the index records are
-    integers, and the simple iterator fails - the third point, decoded from the
-    same packet, has invalid state 3. *)
-Example C05_simple_is_view_without_leftover_refuted :
+(** Values decoded behind the last point are not converted (repair 1d9b775; before
+    it this instance failed with Invalid): with two records the third point, which
+    arrives in the same packet as the second and has invalid state 3, does not matter. *)
+Example C05_values_behind_last_point_ignored :
   raw_run 2 = Ok (firstn 2 pts) /\
-  forallb (invalid_states_in_set (pc 2)) (firstn 2 pts) = true /\
-  index_records_are_integers (pc 2) = true /\
-  is_ok (prepare_ranges (pc 2)) = true /\
-  simple_run 2 default_opts = Err EInvalid.
-Proof. repeat split; vm_compute; reflexivity. Qed.
+  match simple_run 2 default_opts with Ok l => length l | _ => 0%nat end = 2%nat.
+Proof. split; vm_compute; reflexivity. Qed.
 
 (** With all three records the raw iterator succeeds and the simple iterator
     fails for the documented reason; the points of the packets before the
